@@ -42,6 +42,10 @@ inductive SOp where
   | gsub (e c : Nat)
   /-- direct call on the exported global centre: `GetGlobalEC().Unsubscribe(name, centre)` -/
   | gunsub (e c : Nat)
+  /-- `GetGlobalEC().Subscribe(name, centre)` racing with other calls: the operations of template `t`'s script run
+      after the global centre looked the name's list up and before it stores the centre in it (the harness does
+      this with a wrapper centre whose `GetId()` performs them) -/
+  | gsubh (e c t : Nat)
   deriving DecidableEq, Repr, Inhabited
 
 /-- listener template: bound arguments, code pointer (light centre identity), script -/
@@ -124,6 +128,7 @@ structure World where
   locks : List (Nat × Nat)        -- read locks on (centre, name) lists held by dispatch frames (D7 only)
   pubs : Nat                      -- publication counter (ghost)
   direct : List (Nat × Nat)       -- (name, centre) pairs touched by direct calls on the global centre (ghost)
+  hooked : List Nat               -- templates already used as a racing script (each at most once: termination)
   blocked : Option Block
   deriving Repr, Inhabited
 
@@ -132,7 +137,7 @@ def maxDepth : Nat := 3
 
 def init (cfg : Cfg) (cs : List (Bool × Bool)) (tm : List (Nat × Tmpl)) : World :=
   { cfg := cfg, cs := cs.map (fun k => ⟨k.1, k.2, true, []⟩), subs := [], gflag := [], greg := [],
-    tmpls := tm, used := [], stack := [], guide := [], out := [], locks := [], pubs := 0, direct := [], blocked := none }
+    tmpls := tm, used := [], stack := [], guide := [], out := [], locks := [], pubs := 0, direct := [], hooked := [], blocked := none }
 
 def tmplOf (w : World) (t : Nat) : Option Tmpl := (w.tmpls.find? (fun x => x.1 == t)).map (·.2)
 
@@ -256,6 +261,20 @@ def doGsub (w : World) (e c : Nat) (add : Bool) : World :=
                        direct := insertP (e, c) w.direct } (if add then .gsub e c else .gunsub e c)
   | none => emit w .bad
 
+/-- the racing subscribe: the list of a name, once created, is never replaced, so "look up, let the others
+run, store" ends like "let the others run, then subscribe" -/
+def doGsubH (w : World) (e c t : Nat) : World :=
+  match w.cs[c]? with
+  | some ct =>
+    if ct.light then emit w .bad
+    else if w.hooked.contains t then emit w .dup
+    else
+      let sc := match (w.tmpls.find? (fun x => x.1 == t)).map (·.2) with
+        | some tm => tm.script
+        | none => []
+      { w with hooked := t :: w.hooked, stack := .script 0 (sc ++ [.gsub e c]) :: w.stack }
+  | none => emit w .bad
+
 def execOp (w : World) : SOp → World
   | .sub c e t g => doSub w c e t g
   | .unsub c e t => doUnsub w c e t
@@ -265,6 +284,7 @@ def execOp (w : World) : SOp → World
   | .clear c => doClear w c
   | .gsub e c => doGsub w e c true
   | .gunsub e c => doGsub w e c false
+  | .gsubh e c t => doGsubH w e c t
 
 /-- which listener does the iteration produce next? `none` = the loop ends -/
 def pick (guide : List GTok) (must may : List Sub) : Option Sub × List GTok :=
